@@ -167,6 +167,13 @@ class Translator:
             if isinstance(op, (ast.FloorDiv, ast.Mod)):
                 if b.py is None or b.py <= 0:
                     raise CannotEncode('// or % by a non-constant')
+                if b.py & (b.py - 1) == 0:
+                    # power of two: floor division is an arithmetic shift,
+                    # the (non-negative) modulus a bit mask
+                    k = b.py.bit_length() - 1
+                    if isinstance(op, ast.FloorDiv):
+                        return Val('int', '(bvashr %s %s)' % (a.term, bv(k)))
+                    return Val('int', '(bvand %s %s)' % (a.term, bv(b.py - 1)))
                 q = '(bvsdiv %s %s)' % (a.term, b.term)
                 r = '(bvsrem %s %s)' % (a.term, b.term)
                 neg = '(and (bvslt %s %s) (not (= %s %s)))' % (
